@@ -234,18 +234,18 @@ Proof.
 Qed.
 
 (* below a total root nothing panics *)
-Theorem initialize_ok disc t : total (t_root t) = true -> initialize disc t = Ok (init_pure disc t).
+Theorem initialize_ok rx disc t : total (t_root t) = true -> initialize rx disc t = Ok (init_pure rx disc t).
 Proof.
   intros H. unfold initialize.
   destruct (existsb _ (t_pkgs t)) eqn:E; [|reflexivity].
   apply existsb_exists in E. destruct E as (e & _ & E). rewrite pkg_no_panic in E; [discriminate | exact H].
 Qed.
 
-Lemma init_pure_root disc t : t_root (init_pure disc t) = t_root t.
+Lemma init_pure_root rx disc t : t_root (init_pure rx disc t) = t_root t.
 Proof. reflexivity. Qed.
 
-Theorem run_config_ok disc t :
-  total (t_root t) = true -> run_config disc t = Ok (init_pure disc (init_pure disc t)).
+Theorem run_config_ok rx disc t :
+  total (t_root t) = true -> run_config rx disc t = Ok (init_pure rx disc (init_pure rx disc t)).
 Proof.
   intros H. unfold run_config. rewrite initialize_ok by exact H.
   apply initialize_ok. exact H.
@@ -295,8 +295,8 @@ Proof.
   apply get_set_other. intros ->. apply Hn. now left.
 Qed.
 
-Lemma rec_step_untouched disc pkgs parent pkg :
-  untouched disc pkg -> get pkg (rec_step disc pkgs parent) = get pkg pkgs.
+Lemma rec_step_untouched rx disc pkgs parent pkg :
+  untouched disc pkg -> get pkg (rec_step rx disc pkgs parent) = get pkg pkgs.
 Proof.
   intros Hu. unfold rec_step. destruct (get parent pkgs) as [pp|]; [|reflexivity].
   destruct (get parent disc) as [subs|] eqn:Hd.
@@ -304,12 +304,12 @@ Proof.
              (fun acc sub => {| pc_config := merge_cfg (pc_config pp)
                                   (pc_config (match get sub acc with Some x => x | None => empty_pcfg end));
                                 pc_ifaces := pc_ifaces (match get sub acc with Some x => x | None => empty_pcfg end) |})).
-    eapply Hu. exact Hd.
+    intros Hin. apply filter_In in Hin. destruct Hin as [Hin _]. eapply Hu; [exact Hd | exact Hin].
   - reflexivity.
 Qed.
 
-Lemma rec_fold_untouched disc recs pkg : forall pkgs,
-  untouched disc pkg -> get pkg (fold_left (rec_step disc) recs pkgs) = get pkg pkgs.
+Lemma rec_fold_untouched rx disc recs pkg : forall pkgs,
+  untouched disc pkg -> get pkg (fold_left (rec_step rx disc) recs pkgs) = get pkg pkgs.
 Proof.
   induction recs as [|r recs IH]; intros pkgs Hu; [reflexivity|].
   simpl. rewrite IH by exact Hu. apply rec_step_untouched. exact Hu.
@@ -317,9 +317,9 @@ Qed.
 
 (* a package that no recursive package discovers comes out of Initialize as root -> package ->
    interfaces -> configs, whatever else is in the tree *)
-Lemma init_pure_untouched disc t pkg :
+Lemma init_pure_untouched rx disc t pkg :
   untouched disc pkg ->
-  get pkg (t_pkgs (init_pure disc t)) = option_map (init_pkg (t_root t)) (get pkg (t_pkgs t)).
+  get pkg (t_pkgs (init_pure rx disc t)) = option_map (init_pkg (t_root t)) (get pkg (t_pkgs t)).
 Proof.
   intros Hu. unfold init_pure. simpl. rewrite rec_fold_untouched by exact Hu.
   apply (get_map (init_pkg (t_root t))).
@@ -336,9 +336,9 @@ Proof. revert n; induction l as [|x l IH]; intros [|n]; simpl; auto. Qed.
 
 (* The effective config of a mock after the two Initialize calls of a run is the top-down merge
    of its own chain. *)
-Theorem effective_chain disc t m c :
+Theorem effective_chain rx disc t m c :
   untouched disc (m_pkg m) ->
-  mock_cfg (init_pure disc (init_pure disc t)) m = Some c ->
+  mock_cfg (init_pure rx disc (init_pure rx disc t)) m = Some c ->
   cfg_equiv c (eff_cfg (written_chain t m)).
 Proof.
   intros Hu. unfold mock_cfg, written_chain.
@@ -377,16 +377,16 @@ Proof.
 Qed.
 
 (* after the first call only (what `mockery showconfig` prints): exact, not only equivalent *)
-Theorem showconfig_pkg disc t pkg :
+Theorem showconfig_pkg rx disc t pkg :
   untouched disc pkg ->
-  get pkg (t_pkgs (init_pure disc t)) = option_map (init_pkg (t_root t)) (get pkg (t_pkgs t)).
+  get pkg (t_pkgs (init_pure rx disc t)) = option_map (init_pkg (t_root t)) (get pkg (t_pkgs t)).
 Proof. apply init_pure_untouched. Qed.
 
 (* ------------------------------------------------------------------ consequences *)
 Section Chain.
-  Variables (disc : list (str * list str)) (t : tree) (m : mock) (c : cfg).
+  Variables (rx : str -> str -> bool) (disc : list (str * list str)) (t : tree) (m : mock) (c : cfg).
   Hypothesis Hu : untouched disc (m_pkg m).
-  Hypothesis Hc : mock_cfg (init_pure disc (init_pure disc t)) m = Some c.
+  Hypothesis Hc : mock_cfg (init_pure rx disc (init_pure rx disc t)) m = Some c.
 
   Lemma written_chain_nonempty : written_chain t m <> [].
   Proof.
@@ -400,24 +400,24 @@ Section Chain.
   Theorem scalar_first_set p :
     c_ptr c p = first_some (map (fun x => c_ptr x p) (written_chain t m)).
   Proof.
-    destruct (effective_chain disc t m c Hu Hc) as (H & _). rewrite H. apply ptr_eff_cfg.
+    destruct (effective_chain rx disc t m c Hu Hc) as (H & _). rewrite H. apply ptr_eff_cfg.
   Qed.
 
   Theorem esr_first_set : c_esr c = first_some (map c_esr (written_chain t m)).
   Proof.
-    destruct (effective_chain disc t m c Hu Hc) as (_ & _ & _ & H). rewrite H. apply esr_eff_cfg.
+    destruct (effective_chain rx disc t m c Hu Hc) as (_ & _ & _ & H). rewrite H. apply esr_eff_cfg.
   Qed.
 
   Theorem replace_type_first_set k :
     rget k (c_rt c) = first_some (map (fun x => rget k (c_rt x)) (written_chain t m)).
   Proof.
-    destruct (effective_chain disc t m c Hu Hc) as (_ & _ & H & _). rewrite H. apply rt_eff_cfg.
+    destruct (effective_chain rx disc t m c Hu Hc) as (_ & _ & H & _). rewrite H. apply rt_eff_cfg.
   Qed.
 
   Theorem template_data_resolve path :
     look path (tdj c) = resolve path (map tdj (written_chain t m)).
   Proof.
-    destruct (effective_chain disc t m c Hu Hc) as (_ & H & _). rewrite H.
+    destruct (effective_chain rx disc t m c Hu Hc) as (_ & H & _). rewrite H.
     apply td_chain. exact written_chain_nonempty.
   Qed.
 
@@ -432,11 +432,11 @@ End Chain.
 
 (* no leak: two trees that write the same chain for a mock give it the same effective config,
    whatever else they contain *)
-Theorem no_leak disc t t' m c c' :
+Theorem no_leak rx disc t t' m c c' :
   untouched disc (m_pkg m) ->
   written_chain t m = written_chain t' m ->
-  mock_cfg (init_pure disc (init_pure disc t)) m = Some c ->
-  mock_cfg (init_pure disc (init_pure disc t')) m = Some c' ->
+  mock_cfg (init_pure rx disc (init_pure rx disc t)) m = Some c ->
+  mock_cfg (init_pure rx disc (init_pure rx disc t')) m = Some c' ->
   cfg_equiv c c'.
 Proof.
   intros Hu E H H'.
@@ -614,10 +614,11 @@ Definition keeps (base acc : list (str * pcfg)) : Prop :=
   forall k a, get k base = Some a -> total (pc_config a) = true ->
               exists b, get k acc = Some b /\ prel a b.
 
-Lemma rec_step_keeps disc base acc parent : keeps base acc -> keeps base (rec_step disc acc parent).
+Lemma rec_step_keeps rx disc base acc parent : keeps base acc -> keeps base (rec_step rx disc acc parent).
 Proof.
   intros HK. unfold rec_step. destruct (get parent acc) as [pp|]; [|exact HK].
-  generalize (match get parent disc with Some l => l | None => [] end). intros subs.
+  generalize (filter (fun sub => negb (excluded rx (c_esr (pc_config pp)) sub))
+                     (match get parent disc with Some l => l | None => [] end)). intros subs.
   revert acc HK. induction subs as [|s subs IH]; intros acc HK; [exact HK|].
   simpl. apply IH. intros k a Ha Ht. destruct (HK k a Ha Ht) as (b & Hb & Hr).
   destruct (str_dec k s) as [->|Hne].
@@ -628,7 +629,7 @@ Proof.
   - rewrite get_set_other by exact Hne. eauto.
 Qed.
 
-Lemma rec_fold_keeps disc base recs : forall acc, keeps base acc -> keeps base (fold_left (rec_step disc) recs acc).
+Lemma rec_fold_keeps rx disc base recs : forall acc, keeps base acc -> keeps base (fold_left (rec_step rx disc) recs acc).
 Proof.
   induction recs as [|r recs IH]; intros acc HK; [exact HK|]. simpl. apply IH. apply rec_step_keeps. exact HK.
 Qed.
@@ -637,23 +638,23 @@ Lemma keeps_refl l : keeps l l.
 Proof. intros k a Ha _. exists a. split; [exact Ha | apply prel_refl]. Qed.
 
 (* one Initialize with discovery vs. without, on related trees *)
-Lemma init_pure_rel disc root pk pk' k a :
+Lemma init_pure_rel rx disc root pk pk' k a :
   total root = true ->
   (forall x, get k pk = Some x -> exists y, get k pk' = Some y /\ prel x y) ->
-  get k (t_pkgs (init_pure [] {| t_root := root; t_pkgs := pk |})) = Some a ->
-  exists b, get k (t_pkgs (init_pure disc {| t_root := root; t_pkgs := pk' |})) = Some b /\ prel a b.
+  get k (t_pkgs (init_pure rx [] {| t_root := root; t_pkgs := pk |})) = Some a ->
+  exists b, get k (t_pkgs (init_pure rx disc {| t_root := root; t_pkgs := pk' |})) = Some b /\ prel a b.
 Proof.
   intros Ht Hrel Ha. unfold init_pure in *. simpl in *.
-  assert (forall recs l, fold_left (rec_step []) recs l = l) as Hid.
+  assert (forall recs l, fold_left (rec_step rx []) recs l = l) as Hid.
   { induction recs as [|r recs IH]; intros l; [reflexivity|]. simpl. rewrite <- (IH l) at 2. f_equal.
     unfold rec_step. destruct (get r l); reflexivity. }
   rewrite Hid in Ha. rewrite (get_map (init_pkg root)) in Ha.
   destruct (get k pk) as [x|] eqn:Ex; [|discriminate]. simpl in Ha. injection Ha as <-.
   destruct (Hrel x eq_refl) as (y & Ey & Rxy).
   assert (keeps (map (fun e => (fst e, init_pkg root (snd e))) pk')
-                (fold_left (rec_step disc)
-                   (map fst (filter (fun e => is_true (c_ptr (pc_config (snd e)) PRecursive))
-                                    (map (fun e => (fst e, init_pkg root (snd e))) pk')))
+                (fold_left (rec_step rx disc)
+                   (sort_desc (map fst (filter (fun e => is_true (c_ptr (pc_config (snd e)) PRecursive))
+                                    (map (fun e => (fst e, init_pkg root (snd e))) pk'))))
                    (map (fun e => (fst e, init_pkg root (snd e))) pk'))) as HK
     by (apply rec_fold_keeps, keeps_refl).
   destruct (HK k (init_pkg root y)) as (b & Hb & Rb).
@@ -708,30 +709,30 @@ Proof.
 Qed.
 
 (* C08_scalar for every configured package, recursive parents or not *)
-Theorem scalar_first_set_all disc t m c p :
+Theorem scalar_first_set_all rx disc t m c p :
   total (t_root t) = true ->
   has_key (m_pkg m) (t_pkgs t) = true ->
-  mock_cfg (init_pure disc (init_pure disc t)) m = Some c ->
+  mock_cfg (init_pure rx disc (init_pure rx disc t)) m = Some c ->
   c_ptr c p = first_some (map (fun x => c_ptr x p) (written_chain t m)).
 Proof.
   intros Ht Hk Hc.
   assert (untouched [] (m_pkg m)) as Hu by (intros parent subs H; discriminate).
   destruct t as [root pk]. simpl in Ht.
-  set (u2 := init_pure [] (init_pure [] {| t_root := root; t_pkgs := pk |})).
-  set (d2 := init_pure disc (init_pure disc {| t_root := root; t_pkgs := pk |})) in *.
+  set (u2 := init_pure rx [] (init_pure rx [] {| t_root := root; t_pkgs := pk |})).
+  set (d2 := init_pure rx disc (init_pure rx disc {| t_root := root; t_pkgs := pk |})) in *.
   (* pass 1 relation *)
-  assert (forall k a, get k (t_pkgs (init_pure [] {| t_root := root; t_pkgs := pk |})) = Some a ->
-            exists b, get k (t_pkgs (init_pure disc {| t_root := root; t_pkgs := pk |})) = Some b /\ prel a b) as H1.
+  assert (forall k a, get k (t_pkgs (init_pure rx [] {| t_root := root; t_pkgs := pk |})) = Some a ->
+            exists b, get k (t_pkgs (init_pure rx disc {| t_root := root; t_pkgs := pk |})) = Some b /\ prel a b) as H1.
   { intros k a Ha. eapply init_pure_rel; [exact Ht | | exact Ha].
     intros x Hx. exists x. split; [exact Hx | apply prel_refl]. }
   (* pass 2 relation *)
   assert (forall a, get (m_pkg m) (t_pkgs u2) = Some a ->
             exists b, get (m_pkg m) (t_pkgs d2) = Some b /\ prel a b) as H2.
   { intros a Ha. unfold u2 in Ha. unfold d2.
-    change (init_pure [] {| t_root := root; t_pkgs := pk |})
-      with {| t_root := root; t_pkgs := t_pkgs (init_pure [] {| t_root := root; t_pkgs := pk |}) |} in Ha.
-    change (init_pure disc {| t_root := root; t_pkgs := pk |})
-      with {| t_root := root; t_pkgs := t_pkgs (init_pure disc {| t_root := root; t_pkgs := pk |}) |}.
+    change (init_pure rx [] {| t_root := root; t_pkgs := pk |})
+      with {| t_root := root; t_pkgs := t_pkgs (init_pure rx [] {| t_root := root; t_pkgs := pk |}) |} in Ha.
+    change (init_pure rx disc {| t_root := root; t_pkgs := pk |})
+      with {| t_root := root; t_pkgs := t_pkgs (init_pure rx disc {| t_root := root; t_pkgs := pk |}) |}.
     eapply init_pure_rel; [exact Ht | | exact Ha]. intros x Hx. apply H1. exact Hx. }
   unfold has_key in Hk. simpl in Hk.
   destruct (get (m_pkg m) pk) as [pc|] eqn:Epk; [|discriminate].
@@ -744,7 +745,7 @@ Proof.
   destruct (mock_cfg {| t_root := t_root u2; t_pkgs := t_pkgs u2 |} m) as [c0|] eqn:Hc0; [|contradiction].
   rewrite <- (Hm p).
   assert (mock_cfg u2 m = Some c0) as Hc0' by (destruct u2; exact Hc0).
-  exact (scalar_first_set [] {| t_root := root; t_pkgs := pk |} m c0 Hu Hc0' p).
+  exact (scalar_first_set rx [] {| t_root := root; t_pkgs := pk |} m c0 Hu Hc0' p).
 Qed.
 
 (* the guard of the chain theorems as a boolean *)
@@ -764,3 +765,27 @@ Proof.
   specialize (H _ (get_in _ _ _ Hg)). simpl in H.
   apply smem_In in Hin. rewrite Hin in H. discriminate.
 Qed.
+
+(* ------------------------------------------------------------------ sub-package exclusion *)
+(* The list consulted for the sub-packages of a recursive package is that package's own merged
+   list: the package's list if it writes one - also an explicitly empty one - else the top
+   level's; an excluded sub-package is left exactly as it was by this package's step. *)
+Lemma esr_of_package root p :
+  c_esr (pc_config (init_pkg root p)) = orelse (c_esr (pc_config p)) (c_esr root).
+Proof. reflexivity. Qed.
+
+Lemma rec_step_excluded rx disc pkgs parent pp sub :
+  get parent pkgs = Some pp ->
+  excluded rx (c_esr (pc_config pp)) sub = true ->
+  get sub (rec_step rx disc pkgs parent) = get sub pkgs.
+Proof.
+  intros Hp Hex. unfold rec_step. rewrite Hp.
+  apply (fold_set_untouched
+           (fun acc s => {| pc_config := merge_cfg (pc_config pp)
+                                (pc_config (match get s acc with Some x => x | None => empty_pcfg end));
+                            pc_ifaces := pc_ifaces (match get s acc with Some x => x | None => empty_pcfg end) |})).
+  intros Hin. apply filter_In in Hin. destruct Hin as [_ H]. rewrite Hex in H. discriminate.
+Qed.
+
+Lemma explicit_empty_excludes_nothing rx pkg : excluded rx (Some []) pkg = false.
+Proof. reflexivity. Qed.
